@@ -1,5 +1,6 @@
 """C11 - the cached guard answers exactly like an uncached one."""
 import copy
+import gc
 
 import proto
 from common import Failure, Outcome, Broken
@@ -15,11 +16,11 @@ from vakt.util import Observer
 MODULE = 'Props.C11'
 THEOREMS = ['Vakt.C11.step_valid', 'Vakt.C11.any_backend_transparent', 'Vakt.C11.lru_lawful',
             'Vakt.C11.cached_transparent', 'Vakt.C11.notify_exactly_once', 'Vakt.C11.reads_never_notify',
-            'Vakt.C11.within_capacity_hit_partial', 'Vakt.C11.cached_logs_once', 'Vakt.Lru.run_transparent']
+            'Vakt.C11.within_capacity_hit', 'Vakt.C11.immediate_repeat_hit', 'Vakt.C11.cached_logs_once', 'Vakt.Lru.run_transparent']
 FLOOR = {'quick': 100, 'thorough': 1500}
-ASSUMPTIONS = ['the general within-capacity clause (fewer than cap distinct other inquiries since the last ask) is checked '
-               'differentially against functools.lru_cache via the model\'s hit/miss prediction, only the immediate-repeat '
-               'case is a theorem (within_capacity_hit_partial)',
+ASSUMPTIONS = ["functools.lru_cache's eviction order is modelled (most recently used first, trimmed to capacity) and compared "
+               'hit by hit with the real cache; the general within-capacity clause is a theorem about that model '
+               '(within_capacity_hit, immediate_repeat_hit)',
                'the fake Redis client stands in for a server']
 KINDS = ['memory', 'sqlite', 'redis-pickle']
 
@@ -146,6 +147,11 @@ def run(ctx):
             f.signature = 'create:' + backend_kind
             out.failures.append(f)
             continue
+        # the third return value is for information only: a caller that does not keep it gets the same guarantees
+        dropped = rng.random() < 0.35
+        if dropped:
+            cache = None
+            gc.collect()
         spy = NotifySpy(lambda: store_dump(raw))
         st.add_listener(spy)
         # pool of inquiries: the target, content-equal distinct objects, near misses (tuple/list, 1/1.0/True)
@@ -282,7 +288,7 @@ def run(ctx):
                 human.append('read ' + rd)
             if problems:
                 break
-        desc = {'backend': kind, 'checker': k, 'cache_backend': backend_kind, 'capacity': cap,
+        desc = {'backend': kind, 'checker': k, 'cache_backend': backend_kind, 'capacity': cap, 'cache_object_dropped': dropped,
                 'policies': [repr(p) for p in case['policies']], 'history': human}
         if problems:
             f = Failure('oracle', desc, outs[-6:], None, problems[0],
@@ -312,7 +318,7 @@ def run(ctx):
                         outs[max(0, i - 3):i + 1], mo[max(0, i - 3):i + 1],
                         'answer, hit/miss or notification count differs from the model of the cached guard (an unexpected '
                         'miss within capacity means the storage was consulted again; an unexpected hit means a stale or '
-                        'foreign entry was served)', 'Vakt.C11.cached_transparent / within_capacity_hit_partial',
+                        'foreign entry was served)', 'Vakt.C11.cached_transparent / within_capacity_hit',
                         line=line, size=i)
             f.signature = 'model:' + ('hitmiss' if (i < len(outs) and i < len(mo) and outs[i][:1] == mo[i][:1]) else 'answer')
             out.failures.append(f)
